@@ -111,6 +111,10 @@ def writeIP (ip : IP) : Res Bytes :=
     | some v => .ok (v.take 4)
     | none => .panic
 
+/-- `var buf [cap]byte; copy(buf[:cap-1], s); write buf[:]` — a name field:
+at most `cap-1` bytes of the string, NUL padded to `cap`. -/
+def nameField (cap : Nat) (s : Bytes) : Bytes := copyInto (cap - 1) s ++ [0]
+
 /-- `(*DHCPv4).ToBytes` -/
 def enc4 (p : Pkt4) : Res Bytes := do
   let ci ← writeIP p.ciaddr
@@ -121,8 +125,8 @@ def enc4 (p : Pkt4) : Res Bytes := do
     [p.op, UInt8.ofNat p.htype, UInt8.ofNat p.hw.length, p.hops] ++ copyInto 4 p.xid
       ++ be16 p.secs ++ be16 p.flags ++ ci ++ yi ++ si ++ gi
       ++ copyInto chaddrLen p.hw
-      ++ (copyInto (snameCap - 1) p.sname ++ [0])
-      ++ (copyInto (fileCap - 1) p.file ++ [0])
+      ++ nameField snameCap p.sname
+      ++ nameField fileCap p.file
       ++ magicCookie ++ marshalOpts p.opts ++ [optEnd]
   pure (body ++ zeros (bootpMinLen - body.length))
 
